@@ -2,7 +2,7 @@
 """Regenerates /verif/MANIFEST.json from the table below (run after adding a check)."""
 import json, subprocess
 props=[json.loads(l)['id'] for l in open('/verif/properties.jsonl')]
-SIMHOST="deterministic whole-system simulation (real NodeHosts, seeded task scheduler, SimFS/SimNet fault injection)"
+SIMHOST="deterministic whole-system simulation (real NodeHosts, seeded task scheduler over parked goroutines, Go faketime runtime, SimFS/SimNet fault injection, seeded search with shrinking and exact replay)"
 L0="deterministic component simulation against a reference model with fault injection"
 checks={
  "C01":("exploration","simhost","porcupine linearizability check of the recorded client history (writes/ReadIndex+ReadLocalNode on any replica) under loss, delay, reordering, partitions, transfers, crash+restart; no duplication", SIMHOST+" + porcupine"),
@@ -10,7 +10,7 @@ checks={
  "C03":("exploration","simhost","leader per term ghost from white-box role peeks after every event; one vote per term across restarts from the frames that leave each replica", SIMHOST),
  "C04":("exploration","simhost","every frame leaving a replica is checked against the durable shadow recorded when SaveRaftState returned; after crash+restart the recovered term/vote/last index are compared with what had been promised; restart must succeed", SIMHOST),
  "C05":("exploration","simhost","clients use registered sessions and retry timed-out proposals with the same series id on any replica under loss/duplication/leader changes/snapshots/restarts with a small session LRU; every write id must reach each state machine incarnation at most once, retries that complete must carry the result of that application, unregistered/evicted sessions must be Rejected and never applied", SIMHOST),
- "C06":("exploration","simhost","at the moment a ReadIndex completes on any replica its local applied index must be at least the highest commit index any replica had when the request was issued (ghost, monotone), under duplication/reordering/partitions/transfers/membership changes; plus the C01 history check", SIMHOST),
+ "C06":("exploration","simhost","at the moment a ReadIndex completes on any replica its local applied index must be at least the highest durably backed commit index any replica had when the request was issued (ghost, monotone); a completed read must return a version >= that of every write of the key acknowledged before the read was invoked; under duplication/reordering/partitions (pairwise and group splits)/transfers/membership changes incl. shapes with non-voting members", SIMHOST),
  "C07":("exploration","simhost","membership observed per ConfigChangeId must be identical on all replicas and obey the stated rules; invalid requests must not complete; stale ordered ids must be rejected", SIMHOST),
  "C08":("exploration","simhost","frequent snapshots with small compaction overhead, lagging followers caught up through real chunk transfer, restarts from own snapshots, all three SM kinds, compression on/off: replicas that applied the same index must hold the same state, restart after any crash must succeed (no gap after compaction)", SIMHOST),
  "C09":("exploration","l0","real Tan (regular, multiplexed) and sharded Pebble (plain, batched) over SimFS driven with tape-chosen save/overwrite/compaction/removal/import/reopen sequences over several replicas sharing a store, every query compared with a reference store written from the ILogDB contract", L0),
@@ -21,7 +21,7 @@ checks={
  "C14":("fault_enumeration","l0","real SnapshotWriter/Reader (v1+v2, with/without compression) over SimFS: every single-bit flip of small files and streams is enumerated, larger ones sampled; truncations, lost/repeated pieces; the ChunkWriter->SnapshotValidator stream side; shrunk snapshots; I/O errors", L0),
  "C15":("exploration","l0","real sender side splitting -> real transport.Chunk receiver over SimFS with tape-chosen perturbations (drop, swap, duplicate, restart, interleaved senders/indexes, corrupt bytes, foreign ids, removed replica, GC tick placement, hostile file names), incl. exhaustive single perturbations of a fixed 5-chunk stream", L0),
  "C16":("exploration","simhost","crashes land between any two file system operations of snapshot save/receive/commit/compact; what a crash leaves in the snapshot directory is marked, and after the real start-up path only the recorded snapshot may remain (unflagged, file present); the replica must restart and is held to its promises (C04 ledger)", SIMHOST),
- "C17":("exploration","simhost","after the fault phase a fair fault-free schedule must produce a leader, complete fresh requests and bring every member to the commit index within a stated tick budget", SIMHOST),
+ "C17":("exploration","simhost","after the fault phase (loss, partitions, crashes, restarts, membership changes, transfers, quiesce) a fair fault-free schedule in which clients keep submitting requests must produce a leader, complete fresh proposals and reads and bring every member to the commit index within a stated tick budget; failures are diagnosed (cause tag) so that the two recorded findings are told apart from anything new", SIMHOST),
  "C18":("exploration","simhost","replicas whose own applied membership does not list them as voters must never be candidate/leader; explored over cluster shapes with non-voting members and witnesses", SIMHOST),
  "C19":("exploration","l0","real entryLog+LogReader driven against a slice model of the logical log after every operation", L0),
  "C20":("exploration","simhost","seeded history, RequestSnapshot(Exported) at a random point, more history, loss of all hosts, tools.ImportSnapshot on every listed host with a tape-chosen member list (subset/fresh/single; invalid lists; damaged export directory), restart: membership must equal the list with unlisted old members removed, every replica must recover exactly the exported state, a leader must emerge and new proposals complete; refused imports must leave the disk byte-identical", SIMHOST),
@@ -33,7 +33,7 @@ hook_commits=subprocess.run(['git','-C','/repo','log','--format=%H','--grep=^ver
 m={
  "version":1,
  "setup_cmd":"bin/check --build",
- "hooks":{"guard":"verif","enable":"go build -tags verif (bin/check does it on every run)",
+ "hooks":{"guard":"verif","enable":"go build -tags verif (driver) and -tags 'verif faketime' (simulation binary); bin/check does both on every run",
    "baseline_off_cmd":"for m in $(cat /w/out/gomods.txt); do MF=$(cd /repo/$m && . /w/out/goenv.sh && gomodflag); (cd /repo/$m && go test $MF -json -vet=off -count=1 -timeout 25m ./...); done",
    "add_only":True,"source_commits":hook_commits},
  "engines":[
